@@ -277,7 +277,9 @@ From WTP Require Import Gen.GenLadder.
 
 def run(run):
     run.rule = ("(a) random integer #expr ASTs (depth<=5, all operators incl. word operators in random case, random spacing) "
-                "rendered with minimal and with full parenthesisation; (b) string-function calls over alphabet {a,b,c,space} "
+                "rendered with minimal and with full parenthesisation; (a2) the same trees as token lists (Coq's printer must print the same "
+                "tokens, Model.ExprParse must read the tree back, value = implementation) and token soups of 1-9 tokens over numbers, "
+                "all operators and parentheses (accept/reject and value must agree); (b) string-function calls over alphabet {a,b,c,space} "
                 "length<=8, offsets in [-10,10]; (c) numerals (<=12 integer digits, optional fraction) x every shipped locale "
                 "through formatnum and formatnum|R; non-trivial: (a) AST has >=2 operators, (b) non-empty first argument, "
                 "(c) >=4 integer digits; distinct by JSON hash")
@@ -285,7 +287,7 @@ def run(run):
         "Coq 8.16.1 kernel; vm_compute for evaluating the models and for the ladder comparison",
         "axioms: none",
         "translators translate/ladder.py (precedence ladder of expr_fn, by Python ast, fail-closed) and translate/locales.py",
-        "models coq/Model/ParserFns.v tied to parserfns.py by comparing Wtp.expand('{{fn:...}}') with the model on every case",
+        "models coq/Model/ParserFns.v and coq/Model/ExprParse.v tied to parserfns.py by comparing Wtp.expand('{{fn:...}}') with the model on every case",
         "float arithmetic, urllib quoting and non-ASCII case mapping are not modelled (compared against Python reference only)",
     ]
     errs = regen.regen(["GenLadder", "GenLocales"])
